@@ -381,6 +381,20 @@ def harness_shared(config, name, extra_flags=()):
     return os.path.join(d, name)
 
 
+def failmon(config):
+    """allocation-failpoint monitor (C++), linked against the *shared* plain library so that the shim can tell library callers apart"""
+    L = lib(config, 'plain')
+    hh = _harness_hash([os.path.join(HARNESS, 'failmon.cpp')])
+
+    def mk(d):
+        cmd = ['g++', '-std=c++11', '-O1', '-g', '-fno-builtin-malloc', '-fno-builtin-free', '-fno-builtin-calloc', '-fno-builtin-realloc', '-fno-builtin-strdup', '-fno-builtin-strndup',
+               '-Wno-deprecated-declarations'] + CORE + ['-D' + GUARD] + _incs(L['dir']) + ['-I' + os.path.join(REPO, 'cplusplus'),
+               os.path.join(HARNESS, 'failmon.cpp'), '-o', os.path.join(d, 'failmon'), '-L' + L['dir'], '-lxrl-verif', '-Wl,-rpath,' + L['dir'], '-Wl,-z,now', '-lm', '-ldl']
+        _run(cmd)
+    d = _target('hs-failmon-%s-%s' % (config, hh), mk)
+    return os.path.join(d, 'failmon')
+
+
 def locale_dir():
     """synthetic comma-decimal locale xx_VERIF (LOCPATH)"""
     def mk(d):
